@@ -10,6 +10,7 @@ import (
 	"hash/fnv"
 	"os"
 	"path/filepath"
+	"runtime"
 	"runtime/debug"
 	"sort"
 	"strconv"
@@ -288,6 +289,9 @@ func Guard[C any](check func(C) Verdict, c C) Verdict {
 	var v Verdict
 	pmsg, hung := Watchdog(guardBudget, func() { v = check(c) })
 	if hung {
+		if HungReason != "" {
+			return Verdict{Violation: "the code under test did not return: " + HungReason, Poisoned: true}
+		}
 		return Verdict{Violation: fmt.Sprintf("the code under test did not return: the check used more than %v of CPU time (or 30 minutes of wall-clock time) on this one case", guardBudget), Poisoned: true}
 	}
 	if pmsg != "" {
@@ -530,8 +534,28 @@ func Watchdog(budget time.Duration, f func()) (panicMsg string, hung bool) {
 			if processCPU()-cpu0 > budget || time.Since(start) > 30*time.Minute {
 				return "", true
 			}
+			// memory obtained from the system: a case that makes the code under test allocate
+			// without bound is given up long before the machine suffers
+			var ms runtime.MemStats
+			runtime.ReadMemStats(&ms)
+			if ms.Sys > memLimit() {
+				HungReason = fmt.Sprintf("the process holds %d MiB of memory (limit %d MiB): unbounded allocation", ms.Sys>>20, memLimit()>>20)
+				return "", true
+			}
 		}
 	}
+}
+
+// HungReason says why the last Watchdog gave up, when it was not CPU or wall-clock time.
+var HungReason string
+
+// memLimit is the amount of memory (runtime.MemStats.Sys) beyond which a case is given up:
+// 6 GiB, or VERIF_MEM_LIMIT_MB. Ordinary cases stay below a few hundred MiB.
+func memLimit() uint64 {
+	if mb, err := strconv.Atoi(os.Getenv("VERIF_MEM_LIMIT_MB")); err == nil && mb > 0 {
+		return uint64(mb) << 20
+	}
+	return 6 << 30
 }
 
 // processCPU returns the user+system CPU time consumed by this process so far.
